@@ -23,7 +23,7 @@ BOUNDS = {
 ASSUMPTIONS = ["draw calls are observed at the pyplot boundary (recording stub)", "thresholds are strictly increasing"]
 STUBS = ["matplotlib.pyplot in verif.output / verif.util -> recording stub"]
 
-DIAGRAMS = ["standard/location", "standard/time", "standard/no", "obsfcst", "qq", "sort", "hist", "freq"]
+DIAGRAMS = ["standard/location", "standard/time", "standard/no", "obsfcst", "obsfcst+quantiles", "qq", "sort", "hist", "freq"]
 
 
 def h_diagrams(T, L, P):
@@ -54,7 +54,7 @@ def run(S, which, T, L, P):
         f = load.modules["verif.field"]
         MI = common.input_class()
         shape = (T, L, P)
-        raw, ins = [], []
+        raw, ins, rawq = [], [], []
         for nm in ("A", "B"):
             # missing values only in three cells of input A (the cross-input rules are C01's subject)
             obs, fcst = S.array(nm + ".obs", shape, nan=False), S.array(nm + ".fcst", shape, nan=False)
@@ -64,8 +64,13 @@ def run(S, which, T, L, P):
                 fcst[first] = S.real("A.fcst?0", nan=True)
                 fcst[second] = S.real("A.fcst?1", nan=True)
             raw.append((obs, fcst))
+            kw = {}
+            if which == "obsfcst+quantiles":
+                xq = S.array(nm + ".x", shape + (2,), nan=False)
+                kw = {"quantiles": S.const([0.1, 0.9]), "quantile_scores": xq}
+                rawq.append(xq)
             ins.append(MI(nm + ".txt", common.int_array(S, [86400 * i for i in range(T)]), S.vector([0.0, 30.0][:L]),
-                          common.locations(list(range(1, P + 1))), obs=obs.copy(), fcst=fcst.copy()))
+                          common.locations(list(range(1, P + 1))), obs=obs.copy(), fcst=fcst.copy(), **kw))
         D = data.Data(ins)
         cells = list(np.ndindex(*shape))
 
@@ -84,9 +89,11 @@ def run(S, which, T, L, P):
         if which.startswith("standard"):
             pl = out.Standard(metric.Mae())
             pl.axis = {"location": ax.Location(), "time": ax.Time(), "no": ax.No()}[which.split("/")[1]]
-        elif which == "obsfcst":
+        elif which in ("obsfcst", "obsfcst+quantiles"):
             pl = out.ObsFcst()
             pl.axis = ax.Location()
+            if which == "obsfcst+quantiles":
+                pl.quantiles = [0.1, 0.9]
         elif which == "qq":
             pl = out.QQ()
         elif which == "sort":
@@ -133,6 +140,23 @@ def run(S, which, T, L, P):
                     w = mae(f_, slice_cells(kind, k))
                     S.prove("point-is-the-score-of-its-slice", S.same(ys[k], w), twin=S.same(ys[k], w + 1), detail=which)
             return
+        if which == "obsfcst+quantiles":
+            # one dashed line per (input, quantile level), labelled "<input> <level>%": the mean of
+            # that input's stored quantile over the cases of each location (common valid cases)
+            for f_, nm in enumerate(("A.txt", "B.txt")):
+                for qi, lev in enumerate((10, 90)):
+                    lines_ = [c for c in calls.find("mpl", "plot") if c[3].get("label") == "%s %d%%" % (nm, lev)]
+                    S.prove("one-line-per-input-and-quantile", len(lines_) == 1, detail="%s %d%%" % (nm, lev))
+                    if len(lines_) != 1:
+                        continue
+                    ys = S.elements(lines_[0][2][1])
+                    for p in range(P):
+                        # the quantile lines need the quantile and the observations (not the forecasts)
+                        sel = [c for c in cells if c[2] == p and bool(valid(c, need_fcst=False))]
+                        w = ref.r_mean(S, [rawq[f_][c + (qi,)] for c in sel]) if sel else float("nan")
+                        S.prove("quantile-line-shows-its-own-input-and-level", S.same(ys[p], w), twin=S.same(ys[p], w + 1),
+                                detail="%s %d%%" % (nm, lev))
+            which = "obsfcst"
         if which == "obsfcst":
             obs_line = [c for c in calls.find("mpl", "plot") if c[3].get("label") == "Observed"]
             S.prove("observation-line-and-one-line-per-input", len(obs_line) == 1 and [c[3]["label"] for c in series] == ["A.txt", "B.txt"])
